@@ -257,6 +257,14 @@ def run_case(kind, p):
             if not np.array_equal(src, tmpl):
                 msgs.append(f"user template {s}: the array handed to the constructor was modified through a returned mask "
                             f"(queries {seq})")
+        elif kind == "cropsize":
+            import math
+            from fractions import Fraction as F
+            cls = {"circular": pt.Circular, "radial_gradient": pt.RadialGradient}[p["kind"]]
+            got = cls(radius=p["radius"], search=p["search"]).get_crop_size()
+            want = math.ceil(F(p["search"]))          # exact ceiling of the binary value
+            if got != want:
+                msgs.append(f"{p['kind']}(search={p['search']!r}).get_crop_size() = {got}, ceil(search) = {want}")
         elif kind == "ctor":
             cls = {"circular": pt.Circular, "radial_gradient": pt.RadialGradient,
                    "background_subtraction": pt.BackgroundSubtraction,
@@ -351,6 +359,12 @@ def search(ctx, boost=1, focus=()):
             for v in variants:
                 p = {"kind": kind, "radius": radius, **v}
                 ctx.oracle_case("ctor", p, run_case("ctor", p))
+    # crop size = ceil(search) at the integer boundaries of search (one ulp / 1e-13 above and below an integer)
+    for kind in ("circular", "radial_gradient"):
+        for n_ in (3, 5, int(rng.integers(6, 40))):
+            for sv in (float(n_), float(np.nextafter(n_, np.inf)), float(np.nextafter(n_, 0)), n_ + 1e-13, n_ - 1e-13, 0.1 * 10 * n_ * 3 / 3):
+                p = {"kind": kind, "radius": 1.5, "search": sv}
+                ctx.oracle_case("cropsize", p, run_case("cropsize", p), hkey=("cs", kind, sv))
     ctx.count("ctor_oracle", 60 * boost)
 
 
